@@ -4,7 +4,7 @@ CONSTANTS
   T2 = "traceId"
   P1 = "trace.parent_id"
   P2 = "parentId"
-  IdConfigs <- IdConfigsPairs
+  IdConfigs <- IdConfigsQuick
   RuleSets <- RuleSetsQuick
   Events <- EventsQuick
   Paths = {"event-json", "batch-json", "batch-msgp", "otlp-http", "otlp-grpc", "peer-batch"}
